@@ -339,7 +339,7 @@ impl Prop for C06 {
                             model.order.push(n.clone());
                             model.files.insert(n.clone(), b.clone());
                         }
-                        let rcfg = ReadCfg { keys: vec![hex::encode(kb)], sched: Sched::Full, budget: u64::MAX / 2, error_at_read: None, spill_path: None, explicit_auth_mode: false };
+                        let rcfg = ReadCfg { keys: vec![hex::encode(kb)], sched: Sched::Full, budget: u64::MAX / 2, error_at_read: None, spill_path: None, explicit_auth_mode: false, replay: None };
                         v.extend(check_readback(s, &Rc::new(img), &rcfg, &model, 4096, ctx, "sample"));
                         ctx.sig(format!("sample|files{}|blocks{}", d.files.len(), d.comp.as_ref().map(|c| c.blocks.len()).unwrap_or(0)));
                         ctx.probe_n("sample-files", d.files.len() as u64);
